@@ -1,0 +1,41 @@
+//go:build verif
+
+/*
+ * In-package wrappers of the `node` methods (z/btree.go) for the /verif harness: the stream
+ * `node` runs them on raw pages and the Lean driver replays every call on the functions that
+ * go2lean generates from the same methods (RV/Gen/Node.lean), comparing every word of the page.
+ * Compiled only with `-tags verif`; add-only.  A page is a plain []uint64 of pageSize/8 words
+ * with cap == len, exactly what getNode hands out.
+ */
+
+package z
+
+// VerifPageNew returns a zeroed page of the current page size.
+func VerifPageNew() []uint64 { return make([]uint64, pageSize/8) }
+
+func VerifPageZeroOut(p []uint64, lo, hi int)    { zeroOut(p[lo:hi]) }
+func VerifPageUint64(p []uint64, i int) uint64   { return node(p).uint64(i) }
+func VerifPageSetAt(p []uint64, i int, v uint64) { node(p).setAt(i, v) }
+func VerifPageNumKeys(p []uint64) int            { return node(p).numKeys() }
+func VerifPageSetNumKeys(p []uint64, n int)      { node(p).setNumKeys(n) }
+func VerifPagePageID(p []uint64) uint64          { return node(p).pageID() }
+func VerifPageKey(p []uint64, i int) uint64      { return node(p).key(i) }
+func VerifPageVal(p []uint64, i int) uint64      { return node(p).val(i) }
+func VerifPageMoveRight(p []uint64, lo int)      { node(p).moveRight(lo) }
+func VerifPageSetBit(p []uint64, b uint64)       { node(p).setBit(b) }
+func VerifPageBits(p []uint64) uint64            { return node(p).bits() }
+func VerifPageIsLeaf(p []uint64) bool            { return node(p).isLeaf() }
+func VerifPageIsFull(p []uint64) bool            { return node(p).isFull() }
+func VerifPageSearch(p []uint64, k uint64) int   { return node(p).search(k) }
+func VerifPageMaxKey(p []uint64) uint64          { return node(p).maxKey() }
+func VerifPageCompact(p []uint64, lo uint64) int { return node(p).compact(lo) }
+func VerifPageGet(p []uint64, k uint64) uint64   { return node(p).get(k) }
+func VerifPageSet(p []uint64, k, v uint64) int   { return node(p).set(k, v) }
+func VerifPageKeyOffset(i int) int               { return keyOffset(i) }
+func VerifPageValOffset(i int) int               { return valOffset(i) }
+func VerifPageBitLeaf() uint64                   { return bitLeaf }
+
+// VerifPageIterate calls fn with every index node.iterate visits.
+func VerifPageIterate(p []uint64, fn func(i int)) {
+	node(p).iterate(func(_ node, i int) { fn(i) })
+}
